@@ -2,9 +2,11 @@
 """Runs the repository's test suite (guard off: there are no hooks) and checks that every test in
 BASELINE.json's stable_pass list passes. Exit 0 iff all of them pass."""
 import json, re, subprocess, sys
+import os
+REPO = sys.argv[1] if len(sys.argv) > 1 else '/repo'
 base = json.load(open('/root/.vp/BASELINE.json'))
 stable = set(base['stable_pass'])
-p = subprocess.run('cd /repo && cargo test --workspace --no-fail-fast --offline 2>&1', shell=True, capture_output=True, text=True)
+p = subprocess.run(f'cd {REPO} && cargo test --workspace --no-fail-fast --offline 2>&1', shell=True, capture_output=True, text=True)
 crate = None
 passed = set(); failed = set()
 for line in p.stdout.splitlines():
@@ -22,7 +24,7 @@ still = []
 for n in missing[:40]:
     crate, _, name = n.partition('::')
     pkg = {'duckscript': 'duckscript', 'duckscriptsdk': 'duckscriptsdk', 'duck': 'duckscript_cli'}.get(crate, crate)
-    r = subprocess.run(f'cd /repo && cargo test -p {pkg} --offline {name} -- --exact 2>&1', shell=True, capture_output=True, text=True)
+    r = subprocess.run(f'cd {REPO} && cargo test -p {pkg} --offline {name} -- --exact 2>&1', shell=True, capture_output=True, text=True)
     if re.search(r'test result: ok\. 1 passed', r.stdout):
         passed.add(n)
     else:
